@@ -4400,8 +4400,13 @@ func (r *RoutingPolicy) AddDefinedSet(s DefinedSet, replace bool) error {
 	if m, ok := r.definedSetMap[s.Type()]; !ok {
 		return fmt.Errorf("invalid defined-set type: %d", s.Type())
 	} else {
-		if d, ok := m[s.Name()]; ok && !replace {
-			if err := d.Append(s); err != nil {
+		if d, ok := m[s.Name()]; ok {
+			// keep the object the compiled conditions point to
+			if replace {
+				if err := d.Replace(s); err != nil {
+					return err
+				}
+			} else if err := d.Append(s); err != nil {
 				return err
 			}
 		} else {
